@@ -37,7 +37,7 @@ ASSUMPTIONS = [
 ]
 NSHARDS = {"quick": 16, "thorough": 16}
 N = {"quick": 7, "thorough": 700}
-REQUIRE = {"requests": 2000, "requests_with_results": 400, "requests_idle": 100, "pipelines_reported_complete": 150,
+REQUIRE = {"containers_mixing_two_pipelines": 100, "requests": 2000, "requests_with_results": 400, "requests_idle": 100, "pipelines_reported_complete": 150,
            "paired_runs_compared": 60, "assignments_decoded": 500, "suspensions_decoded": 10, "paired_serialisations": 200,
            "pool_snapshots_compared": 2000}
 
@@ -166,6 +166,17 @@ class Policy:
                 if not chosen:
                     break
                 p, ops = chosen
+                if self.kind == "pack" and rng.random() < 0.35:
+                    # one container for operators of two pipelines (admissible: containers are lists of operators);
+                    # the first pipeline then finishes in the middle of the container's life
+                    for q in cands:
+                        if q is p:
+                            continue
+                        more = [o["id"] for o in q["operators"] if o["is_assignable_state"] and o["parents_complete"] and o["id"] not in assigned]
+                        if more:
+                            ops = list(ops) + more[:rng.choice([1, 2])]
+                            self.mixed = getattr(self, "mixed", 0) + 1
+                            break
                 cpu = max(1, int(fc * rng.choice([0.25, 0.5, 1.0])))
                 ram = fr * rng.choice([0.25, 0.5, 1.0])
                 if ram >= 1:
@@ -526,6 +537,7 @@ def run_rest(case, mon):
                  "completed_reported": len(rec.reported_complete), "containers": len(h.conts), "tick_offset": rec.offset})
     mon.count("poll:" + str(case.get("_poll")))
     mon.count("policy:" + case["policy"])
+    mon.count("containers_mixing_two_pipelines", getattr(rec.policy, "mixed", 0))
 
 
 def go_type_tags():
